@@ -194,8 +194,13 @@ class Check:
                                              "exception": 0})
             d[i.verdict] += 1
         samples = [i.as_dict() for i in self.instances[:400]]
+        import re as _re
+        later = [r for r in self.rules if not _re.search(r"\b%s\b" % _re.escape(r), self.explanation)]
+        explanation = self.explanation + (
+            f" Rules added while testing the checker against seeded changes: "
+            f"{', '.join(later)} - each is stated in full under coverage.rules." if later else "")
         cov = {
-            "explanation": self.explanation,
+            "explanation": explanation,
             "not_decided": self.not_decided,
             "evaluations": len(judged),
             "distinct_nontrivial": len(distinct),
